@@ -59,15 +59,34 @@ def bounded(pid, name, **kw):
     return deco
 
 
+_DEPENDS = []
+
+
 def depends(pid, other_pid, names):
     """the claim for `pid` rests on contracts proved under another property (a callee's contract used modularly): the same harnesses are run
-    again by `pid`'s check, so that a change which breaks the callee's contract fails the caller's check too (obligation ids are prefixed)"""
-    importlib.import_module(f"contracts.{other_pid}")
-    have = {h.name for h in _reg(pid)["harness"]}
-    for hn in list(REGISTRY[other_pid]["harness"]):
-        if hn.name in names and f"{other_pid}.{hn.name}" not in have:
-            _reg(pid)["harness"].append(Harness(pid, f"{other_pid}.{hn.name}", hn.fn, functions=hn.functions, replay=hn.replay, tier=hn.tier,
-                                                assumptions=hn.assumptions, clause=f"[contract of a dependency, proved under {other_pid}] {hn.clause}"))
+    again by `pid`'s check, so that a change which breaks the callee's contract fails the caller's check too (obligation ids are prefixed).
+    Dependencies may be mutual (C03 <-> C04 <-> C12): they are recorded here and resolved once every contract module has been imported."""
+    _DEPENDS.append((pid, other_pid, list(names)))
+
+
+def resolve_depends():
+    done = 0
+    while done < len(_DEPENDS):             # importing a module may record further dependencies
+        pid, other_pid, names = _DEPENDS[done]
+        done += 1
+        importlib.import_module(f"contracts.{other_pid}")
+    for pid, other_pid, names in _DEPENDS:
+        have = {h.name for h in _reg(pid)["harness"]}
+        found = set()
+        for hn in list(_reg(other_pid)["harness"]):
+            if hn.name in names:
+                found.add(hn.name)
+                if f"{other_pid}.{hn.name}" not in have:
+                    _reg(pid)["harness"].append(Harness(pid, f"{other_pid}.{hn.name}", hn.fn, functions=hn.functions, replay=hn.replay, tier=hn.tier,
+                                                        assumptions=hn.assumptions, clause=f"[contract of a dependency, proved under {other_pid}] {hn.clause}"))
+        missing = set(names) - found
+        if missing:
+            raise RuntimeError(f"depends({pid}, {other_pid}): no harness named {sorted(missing)}")
 
 
 def property_meta(pid, **kw):
@@ -462,6 +481,7 @@ def run_property(pid, tier="quick", seed=0, only=None, jobs=None):
     modname = f"contracts.{pid}"
     sys.path.insert(0, VERIF)
     mod = importlib.import_module(modname)
+    resolve_depends()
     reg = REGISTRY.get(pid, {"harness": [], "bounded": [], "meta": {}})
     findings = load_known_findings()
     tasks = []
